@@ -164,6 +164,30 @@ def block(ch, cfg, depth, ns, in_form=False):
     return out
 
 
+def memo_block(ch, ns):
+    """Forms with several radio groups and submit buttons: what the per-query memo tables are keyed on."""
+    out = []
+    for _ in range(ch.i(1, 3)):
+        kids = []
+        for _ in range(ch.i(2, 7)):
+            r = ch.i(0, 9)
+            if r <= 5:
+                attrs = {'type': ch.pick(('radio', 'radio', 'Radio')), 'name': ch.pick(('g1', 'g2', 'g3'))}
+                if ch.p(0.25):
+                    attrs['checked'] = ''
+                kids.append(E('input', attrs, [], ns=ns))
+            elif r <= 7:
+                kids.append(E(ch.pick(('button', 'input')), {'type': ch.pick(('submit', 'Submit', 'button'))}, [], ns=ns))
+            elif r == 8:
+                kids.append(E('div', {'lang': ch.pick(('en', '', 'de'))} if ch.p(0.5) else {}, [
+                    E('input', {'type': 'radio', 'name': ch.pick(('g1', 'g2'))}, [], ns=ns)], ns=ns))
+            else:
+                kids.append(T('x'))
+        node = E('form', {}, kids, ns=ns) if ch.p(0.8) else E('div', {}, kids, ns=ns)
+        out.append(node)
+    return out
+
+
 HTML_KINDS = ('html.parser', 'lxml', 'html5lib', 'html-api')
 
 
@@ -175,6 +199,8 @@ def gen_html_doc(ch, kinds=HTML_KINDS + ('xhtml', 'lxml-xml', 'xml-api'), depth=
     if kind in ('html.parser', 'html-api') and cfg.get('nested_forms') is None:
         cfg['nested_forms'] = False
     body = block(ch, cfg, depth, ns)
+    if cfg.get('memo_rich') and ch.p(0.7):
+        body = memo_block(ch, ns) + body
     head = []
     if ch.p(0.4):
         for _ in range(ch.i(1, 2)):
